@@ -839,6 +839,10 @@ class ktensor:
 
         if not isinstance(other, ktensor):
             assert False, "other must be a ktensor"
+        if self.shape != other.shape or other.ncomponents > self.ncomponents:
+            assert False, (
+                "other must have the shape of this ktensor and no more components"
+            )
         # Makes typing happy https://github.com/python/mypy/issues/4805
         other_tensor = other
 
